@@ -393,7 +393,14 @@ def run_shard(spec, tier, seed, budget_s):
             sh.count('obs.host_rejected')
             continue
         sh.count('obs.hosts.' + origin)
-        scenarios(sh, random.Random(hseed + '-scenarios'), mk, hseed + '|' + origin)
+        try:
+            scenarios(sh, random.Random(hseed + '-scenarios'), mk, hseed + '|' + origin)
+        except Exception as e:  # noqa
+            if not monitors.is_library_error(e):
+                raise
+            # the set-up of a scenario collided with what the host already contains (e.g. the reference it wants to add is
+            # there already); refusals under test are caught inside expect(), so this is never a verdict about the library
+            sh.count('obs.scenario_setup_collided_with_host.' + type(e).__name__)
     return sh
 
 
